@@ -96,3 +96,27 @@ Fixpoint med_run (s : medium) (ops : list (mop * bool)) : medium :=
       | None => med_run (fst (med_step s o)) r
       end
   end.
+
+(* ---- when does a cancellation that lands DURING a call still count? ----
+   A context that becomes cancelled after its n-th consultation (Err() or Done()) is, for the
+   call, "live" iff n is at least the number of consultations the call makes before its point of
+   no return.  Counted from the source:
+     mpmc.Queue.Send        2   (`p.done.Load() || ctx.Err() != nil`, loop condition); after the
+                                successful head CAS the context is not consulted any more
+     QueueMedium.Send       3   (its own pre-check + the two above)
+     AccumulatorMedium.Send 1   (pre-check; mpsc.Send takes no context)
+     ChannelMedium.Send     1   (ctx.Done() evaluated on entry to the select)
+     Recv on an empty, open medium parks after: mpmc.Queue / QueueMedium 2 (ctx.Err() in the empty
+       branch, ctx.Done() in the select), AccumulatorMedium 1, ChannelMedium 1 (ctx.Done())
+     Recv on a closed, drained Queue/Accumulator medium consults once: `!more && ctx.Err() == nil`
+       decides the latch. *)
+Definition queue_send_consults : nat := 2.
+Definition send_consults (k : mkind) : nat :=
+  match k with MQueue => S queue_send_consults | MAcc => 1 | MChan _ => 1 end.
+Definition send_live (k : mkind) (n : nat) : bool := send_consults k <=? n.
+Definition queue_send_live (n : nat) : bool := queue_send_consults <=? n.
+Definition recv_park_consults (k : mkind) : nat :=
+  match k with MQueue => 2 | MAcc => 1 | MChan _ => 1 end.
+(* [closed_empty]: the medium is closed and drained (only the latch decision consults the context) *)
+Definition recv_live (k : mkind) (closed_empty : bool) (n : nat) : bool :=
+  if closed_empty then 1 <=? n else recv_park_consults k <=? n.
